@@ -173,9 +173,22 @@ def oracleC13 (c : Case) (strat : String) (o : Obs) : List String :=
       if p.length - 1 ≤ best then [] else [s!"bfs-discovery-not-shortest-p{i}"])
 
 /-- single-threaded run-control oracle (C12): depth limit, target, early stop only if the condition holds -/
-def oracleC12 (c : Case) (o : Obs) : List String :=
+def oracleC12 (c : Case) (o : Obs) (strat : String := "") : List String :=
   (match c.cfg.maxDepth with
-   | some d => if o.visits.all (fun p => p.length < d) then [] else ["evaluated-state-at-or-beyond-max-depth"]
+   | some d =>
+     -- the exhaustive checkers stop one level before the limit, simulation evaluates paths of exactly `d` states:
+     -- both "never deeper than target_max_depth"
+     (if o.visits.all (fun p => if strat == "sim" then p.length ≤ d else p.length < d) then []
+      else ["evaluated-state-deeper-than-max-depth"]) ++
+     -- single-threaded BFS still evaluates every state nearer than the limit (no other stop reason)
+     (if strat == "bfs" && c.cfg.target.isNone && !(c.finish.matches c.props (o.disc.map (·.1))) &&
+         (o.disc.map (·.1)).eraseDups.length != c.props.length then
+        let lasts := o.visits.map lastOf
+        if c.g.reachList.all (fun t => match c.g.distOf t with
+            | some k => decide (k + 1 < d) → lasts.contains t
+            | none => true)
+        then [] else ["bfs-missed-a-state-nearer-than-max-depth"]
+      else [])
    | none => []) ++
   (match c.cfg.target with
    | some t => if o.count ≥ min t (c.g.reachList.length) || !(c.cfg.maxDepth.isNone) ||
@@ -253,7 +266,7 @@ def handle : Drv.Handler
         | "c02" => if sim then [] else oracleC02 c o
         | "c03" => oracleC03 c o sim
         | "c11" => oracleC11 c o sim ++ oracleC03 c o sim
-        | "c12" => if sim then (oracleC12 { c with cfg := { c.cfg with target := none } } o) else oracleC12 c o
+        | "c12" => if sim then (oracleC12 { c with cfg := { c.cfg with target := none } } o "sim") else oracleC12 c o strat
         | "c13" => oracleC13 c strat o
         | _ => ["unknown-property"]
       pure (if errs.isEmpty then "ok" else " ".intercalate errs)
